@@ -20,6 +20,11 @@ type Attr struct {
 	S string
 	F float64
 	U uint16
+	B int64  // big: clusters above 2^53 whose members differ by less than the float64 spacing
+	W uint64 // big: clusters above 2^53 / 2^63
+	I int32  // contrast kinds
+	V uint32
+	G float32
 	T [3]string
 }
 
@@ -30,6 +35,11 @@ type ItemI struct {
 	S          string
 	F          float64
 	U          uint16
+	B          int64
+	W          uint64
+	I          int32
+	V          uint32
+	G          float32
 	T0, T1, T2 string
 }
 
@@ -39,11 +49,20 @@ type ItemS struct {
 	S          string
 	F          float64
 	U          uint16
+	B          int64
+	W          uint64
+	I          int32
+	V          uint32
+	G          float32
 	T0, T1, T2 string
 }
 
-func (i ItemI) attr() Attr { return Attr{i.N, i.S, i.F, i.U, [3]string{i.T0, i.T1, i.T2}} }
-func (i ItemS) attr() Attr { return Attr{i.N, i.S, i.F, i.U, [3]string{i.T0, i.T1, i.T2}} }
+func (i ItemI) attr() Attr {
+	return Attr{i.N, i.S, i.F, i.U, i.B, i.W, i.I, i.V, i.G, [3]string{i.T0, i.T1, i.T2}}
+}
+func (i ItemS) attr() Attr {
+	return Attr{i.N, i.S, i.F, i.U, i.B, i.W, i.I, i.V, i.G, [3]string{i.T0, i.T1, i.T2}}
+}
 
 type item interface {
 	ItemI | ItemS
@@ -180,7 +199,8 @@ type connSpec struct {
 	filters   []filterSpec
 }
 
-var sortTypes = []string{"n", "s", "f", "u"}
+// sort kinds: n int64 (small), s string, f float64, u uint16, b int64 (huge), w uint64 (huge), i int32, v uint32, g float32
+var sortTypes = []string{"n", "s", "f", "u", "b", "w", "i", "v", "g"}
 
 func sortName(typ string, kind implKind) string { return typ + "_" + kindNames[kind] }
 
@@ -215,6 +235,11 @@ func options[T item](c connSpec) []schemabuilder.FieldFuncOption {
 			sortOpt[T](sortName("s", k), func(a Attr) string { return a.S }, k),
 			sortOpt[T](sortName("f", k), func(a Attr) float64 { return a.F }, k),
 			sortOpt[T](sortName("u", k), func(a Attr) uint16 { return a.U }, k),
+			sortOpt[T](sortName("b", k), func(a Attr) int64 { return a.B }, k),
+			sortOpt[T](sortName("w", k), func(a Attr) uint64 { return a.W }, k),
+			sortOpt[T](sortName("i", k), func(a Attr) int32 { return a.I }, k),
+			sortOpt[T](sortName("v", k), func(a Attr) uint32 { return a.V }, k),
+			sortOpt[T](sortName("g", k), func(a Attr) float32 { return a.G }, k),
 		)
 	}
 	return opts
